@@ -7,8 +7,8 @@
    (legal_moves is a permutation of the rules' legal moves), makemove's refinement of apply_move, and the closure of the
    domain under legal moves (LcStep).  Agreement with the published tables is a computation of the C++ and of
    spec_perft, checked by the correspondence (tools/perft_tables.py).  Statements only. *)
-From Coq Require Import NArith List Bool.
-From LC Require Import Bits Types BitboardModel MoveModel ZobristModel PositionModel MovegenModel MakeModel GameModel GameFacts Spec.Rules Refine.Abs Refine.MakeAbs PerftExact LegalFinal.
+From Coq Require Import NArith List Bool String.
+From LC Require Import Bits Types BitboardModel MoveModel ZobristModel PositionModel MovegenModel MakeModel GameModel GameFacts Spec.Rules Refine.Abs Refine.MakeAbs PerftExact LegalFinal SpecSanity.
 Import ListNotations.
 Local Open Scope N_scope.
 
@@ -28,5 +28,16 @@ Proof. exact spec_perft_zero. Qed.
 Theorem C04_spec_perft_recurrence : forall d s, spec_perft (S d) s = fold_right (fun m acc => spec_perft d (apply_move s m) + acc) 0 (spec_moves s).
 Proof. exact spec_perft_recurrence. Qed.
 
+(* validation of the specification itself (an example, evaluated in the kernel's VM, not a statement about all positions):
+   the mailbox rule set reproduces the published counts of the classic perft positions, which are all legal-consistent *)
+Theorem C04_spec_reproduces_published_counts :
+  counts "rnbqkbnr/pppppppp/8/8/8/8/PPPPPPPP/RNBQKBNR w KQkq - 0 1" [1;2;3]%nat = [20; 400; 8902] /\
+  counts "r3k2r/p1ppqpb1/bn2pnp1/3PN3/1p2P3/2N2Q1p/PPPBBPPP/R3K2R w KQkq - 0 1" [1;2]%nat = [48; 2039] /\
+  counts "8/2p5/3p4/KP5r/1R3p1k/8/4P1P1/8 w - - 0 1" [1;2;3]%nat = [14; 191; 2812] /\
+  counts "r3k2r/Pppp1ppp/1b3nbN/nP6/BBP1P3/q4N2/Pp1P2PP/R2Q1RK1 w kq - 0 1" [1;2]%nat = [6; 264] /\
+  counts "rnbq1k1r/pp1Pbppp/2p5/8/2B5/8/PPP1NnPP/RNBQK2R w KQ - 1 8" [1;2]%nat = [44; 1486].
+Proof. exact (conj (proj1 spec_startpos) (conj (proj1 spec_kiwipete) (conj (proj1 spec_position3) (conj (proj1 spec_position4) (proj1 spec_position5))))). Qed.
+
+Print Assumptions C04_spec_reproduces_published_counts.
 Print Assumptions C04_perft_counts_rule_sequences. Print Assumptions C04_spec_perft_zero. Print Assumptions C04_spec_perft_recurrence.
 Print Assumptions C04_position_unchanged. Print Assumptions C04_depth_zero. Print Assumptions C04_recurrence.
